@@ -17,6 +17,7 @@ RULE = ("EX = every temporal graph over 3 nodes whose 3 pairs (undirected triang
         "{(u,w): time_respecting_paths(G,u,None,s,e)[(u,w)] for u present at m}. Queries whose enumeration exceeds "
         "20000 paths are skipped and counted. distinct = distinct (graph, query); non-trivial = the oracle set is "
         "non-empty.")
+REQUIRED_CELLS = {t: ("motif:closed-walk+idle+departure", "second-life", "long-timeline") for t in ("quick", "thorough")}
 MIN = {"quick": {"paths==bruteforce": 20000, "empty-when-u-absent-at-start": 2000, "all_trp==per-source": 500,
                  "sample<1:subset": 500},
        "thorough": {"paths==bruteforce": 400000, "empty-when-u-absent-at-start": 40000, "all_trp==per-source": 10000,
@@ -156,9 +157,25 @@ def run(ctx, dn):
     k = 0
     while ctx.time_left() > 1:
         strings = rng.random() < 0.4
-        G, m, nodes, pres = _paths.random_temporal_graph(rng, dn, strings=strings, max_nodes=6, max_ids=7)
-        ctx.case = dict(workload="RND-GRAPHS", directed=m.directed, presence=pres)
+        if k % 6 == 3:
+            G, m, nodes, pres = _paths.motif_graph(rng, dn, strings=strings)
+            ctx.cell("motif:closed-walk+idle+departure")
+            ctx.case = dict(workload="MOTIF", directed=m.directed, presence=pres)
+        else:
+            G, m, nodes, pres = _paths.random_temporal_graph(rng, dn, strings=strings, max_nodes=6, max_ids=7)
+            ctx.case = dict(workload="RND-GRAPHS", directed=m.directed, presence=pres)
         graph_queries(ctx, dn, G, m, nodes, False)
+        if k % 9 == 4:
+            G, m, nodes, pres = _paths.long_pair_graph(rng, dn, strings=strings)
+            ctx.case = dict(workload="LONG-PAIR", directed=m.directed, presence=pres)
+            ctx.cell("long-timeline")
+            graph_queries(ctx, dn, G, m, nodes, False)
+        if k % 5 == 1:
+            m2 = _paths.refill_after_clear(rng, dn, G, m)
+            ctx.case = dict(workload="SECOND-LIFE", directed=m.directed, first_life=pres,
+                            presence={repr(kk): sorted(v) for kk, v in m2.P.items()})
+            ctx.cell("second-life")
+            graph_queries(ctx, dn, G, m2, list(m2.nodes), False)
         if k < 3:
             ctx.sample(ctx.case)
         k += 1
